@@ -74,6 +74,14 @@ def base_layers():
       dict(L("MyLayer", "custom"), registered_name="Custom>MyLayer"),
       L("ReLU", "relu6", max_value=6.0, negative_slope=0.0, threshold=0.0),
       L("LeakyReLU", "leaky", alpha=0.25),
+      # every spelling of the slope: Keras ReLU stores it as negative_slope,
+      # the legacy relu layer and LeakyReLU as alpha
+      L("ReLU", "relu_leaky", max_value=None, negative_slope=0.25,
+        threshold=0.0),
+      L("relu", "relu_legacy", max_value=None, alpha=0.0, threshold=0.0),
+      L("relu", "relu_legacy_leaky", max_value=None, alpha=0.125,
+        threshold=0.0),
+      L("LeakyReLU", "leaky_zero_slope", alpha=0.0),
   ]
 
 
@@ -268,6 +276,42 @@ def run(rep, repo, tier):
   expect("gap", "QGlobalAveragePooling2D", average_quantizer="AVG_gap")
   expect("relu6", "QActivation", activation="ACT_relu")
   expect("leaky", "QActivation", activation="ACT_leaky")
+  expect("relu_leaky", "QActivation", activation="ACT_leaky")
+  expect("relu_legacy", "QActivation", activation="ACT_relu")
+  expect("relu_legacy_leaky", "QActivation", activation="ACT_leaky")
+  expect("leaky_zero_slope", "QActivation", activation="ACT_relu")
+  # a dictionary-form activation map that names only "relu" leaves leaky
+  # layers as they were (and the other way round)
+  for only, lyr0, stays in (
+      ("relu", L("ReLU", "r_leaky", max_value=None, negative_slope=0.25,
+                 threshold=0.0), True),
+      ("relu", L("LeakyReLU", "l_leaky", alpha=0.25), True),
+      ("leakyrelu", L("ReLU", "r_plain", max_value=6.0, negative_slope=0.0,
+                      threshold=0.0), True),
+      ("leakyrelu", L("ReLU", "r_leaky2", max_value=None,
+                      negative_slope=0.25, threshold=0.0), False)):
+    try:
+      jm2, _, _ = run_mq(repo, [_copy.deepcopy(lyr0)],
+                         {"QActivation": {only: "ACT_" + only}})
+    except PyRaise as e:
+      rep.fail("R6", unit, "raises:activation-map-only-" + only,
+               "model_quantize raises %s" % e, loc=loc)
+      continue
+    got = by_name(jm2)[lyr0["config"]["name"]]
+    if stays:
+      rep.check(norm(got) == norm(lyr0), "R4", unit,
+                "activation-map-miss-converted:%s:%s" % (
+                    only, lyr0["config"]["name"]),
+                "an activation map that only names %r changed the %s layer "
+                "%s: %r" % (only, lyr0["class_name"],
+                            lyr0["config"]["name"], _diff(lyr0, got)),
+                loc=loc)
+    else:
+      rep.check(got["class_name"] == "QActivation" and
+                got["config"].get("activation") == "ACT_" + only, "R7", unit,
+                "activation-map-hit-not-converted:" + only,
+                "layer %s should carry the %r entry: %s" %
+                (lyr0["config"]["name"], only, got), loc=loc)
   expect("sep1d", "QSeparableConv1D")
   # R1 added keys are constructor parameters of the target class
   srcs = {l["config"]["name"]: l for l in src}
